@@ -79,6 +79,31 @@ def check(ctx, replay=None):
                 viol += 1
                 why = "has an elided lifetime" if elided else ("uses a type whose definition implies a bound that is not spelled out on the method" if needed and not declared else "is fine")
                 ctx.violation(f"direct:R9:{rp}", {"bridge": src, "what": f"diplomat-tool {'accepts' if cls == 'ok' else 'rejects'} this method although its return type " + why}, True)
+    # write position: DiplomatWrite is the writer only as the last parameter; anywhere else it is not an FFI type
+    fl_c = flags["c"]
+    cfl_c = f"(mkFlags {cbool(fl_c['option'])} {cbool(fl_c['callbacks'])} {cbool(fl_c['static_slices'])} false)"
+    wl = []
+    for ps in (["W"], ["P", "W"], ["P", "P", "W"], ["W", "P"], ["P", "W", "P"], ["W", "W"], ["W", "P", "W"], ["P", "W", "P", "W"]):
+        for recv in ("&self, ", ""):
+            args = ", ".join(f"a{i}: {'&mut DiplomatWrite' if k == 'W' else 'u8'}" for i, k in enumerate(ps))
+            src = ("#[diplomat::bridge]\nmod ffi {\n    use diplomat_runtime::DiplomatWrite;\n    #[diplomat::opaque]\n    pub struct Op(pub u8);\n"
+                   f"    impl Op {{ pub fn f({recv}{args}) {{}} }}\n}}\n")
+            wl.append((ps, recv, src))
+    for k, (ps, recv, src) in enumerate(wl):
+        path = os.path.join(d9, f"w{k}.rs"); open(path, "w").write(src)
+        q = e2e.run_tool("c", path, os.path.join(d9, "out"))
+        cls = e2e.classify_tool(q)
+        if cls in ("ok", "lowering-error"):
+            goals.append(f"Bool.eqb (accept_params {cfl_c} {clist(['TWrite' if x == 'W' else 'TPrim' for x in ps])}) {cbool(cls == 'ok')}")
+            meta.append((None, "c", False, cls, src))
+            want_ok = "W" not in ps[:-1]
+            if (cls == "ok") != want_ok and viol < 3:
+                viol += 1
+                ctx.violation("direct:write-position", {"bridge": src, "what": f"diplomat-tool {'accepts' if cls == 'ok' else 'rejects'} a method whose parameters are "
+                              f"{ps} (W = &mut DiplomatWrite): the writer is {'only allowed' if cls == 'ok' else 'allowed'} as the last parameter"}, True)
+            elif cls == "lowering-error" and "Lowering error in Op::f" not in q.stderr and viol < 3:
+                viol += 1
+                ctx.violation("direct:error-context", {"bridge": src, "what": "the lowering error does not carry Op::f as its context", "stderr": q.stderr[-500:]}, True)
     fails = run_shards(PROP, HEADER, goals, per_shard=400) if goals else []
     seen = set()
     for f in fails:
@@ -104,7 +129,7 @@ def check(ctx, replay=None):
         "checked on rejections. One Coq goal per (case, backend, setting). distinct_nontrivial = distinct (position, type) pairs",
         "Modelled, not verified: lower_type, lower_out_type, lower_return_type, lower_callback_param, the struct / out-struct field checks and "
         "is_ffi_safe, transcribed into Gate/Model.v; Gate/Spec.v states the rules declaratively and the two are proved equivalent. Lifetime rules (R9) "
-        "are C04's, traits are not enumerated, self parameters / write position / ZST methods are modelled and proved but not enumerated here",
+        "are C04's, traits are not enumerated, self parameters / ZST methods are modelled and proved but not enumerated here; write positions are enumerated for lists up to length 4",
         [{"pos": cs[0][0], "rust": gate_run.rust_ty(cs[0][1])}, {"pos": cs[len(cs) // 2][0], "rust": gate_run.rust_ty(cs[len(cs) // 2][1])},
          {"pos": cs[-1][0], "rust": gate_run.rust_ty(cs[-1][1])}],
         ["the macro's own field check (gen_bridge panics on non-FFI-safe fields) is exercised by C09/C01's crate builds"],
